@@ -65,7 +65,9 @@ Table == SetToSeq(IF Hostile THEN HostileCodings ELSE GrammarCodings)
 (* ---------------- model ---------------- *)
 VARIABLES cod, avail, pos, d, delivered, stop, last
 vars == <<cod, avail, pos, d, delivered, stop, last>>
-view == <<cod, avail, pos, d, delivered, stop>>
+\* `last` is hidden from the fingerprint, except for whether the step failed a clause: otherwise a failing step that
+\* leaves the rest of the state unchanged would be merged with its predecessor and never be evaluated by Refines
+view == <<cod, avail, pos, d, delivered, stop, last.fails # {}>>
 
 Bytes == Table[cod].bytes
 Lay == Table[cod]
